@@ -6,4 +6,5 @@ let () = Driver.main [
   { Driver.name = "pc"; run = pc_run; judge = pc_judge };
   { Driver.name = "manager"; run = manager_run; judge = manager_judge };
   { Driver.name = "manager_tol"; run = manager_run; judge = manager_tol_judge };
+  { Driver.name = "manager_acks"; run = manager_run; judge = manager_acks_judge };
 ]
